@@ -112,11 +112,16 @@ theorem mux_reachable (wake : Bool) (sched : List MLabel) (id : Nat) (w : MuxW)
   · intro w hw; unfold capture; split <;> exact hw
   · intro w l hw; exact reach_step w l _ hw (stepMux_st w l)
 
-/-! ### per-mux facts about release (with the D16 wake-up) -/
+/-! ### per-mux facts about release (the code as it is: any `wake`) -/
 structure WInv (w : MuxW) : Prop where
   base : w.baseOpen = true ↔ (w.st.phase = .running ∨ w.st.phase = .exiting)
-  capOk : w.st.phase = .running → w.atTop = false → w.cap = (w.st.socks, w.st.http)
   fresh : w.st.phase = .running → w.st.socks = none → w.st.http = none → w.st.subs = []
+
+/-- mainLoop's view is current: it is at its loop head (it will capture next), or the close
+    channels it captured are those of the registered sub-listeners — i.e. every registration
+    precedes mainLoop's current capture, or something has woken mainLoop since -/
+def CaptureCurrent (w : MuxW) : Prop :=
+  w.st.phase = .running → w.atTop = false → w.cap = (w.st.socks, w.st.http)
 
 theorem markClosed_nil_iff (l : List Sub) (t : Nat) : markClosed l t = [] ↔ l = [] := by
   unfold markClosed
@@ -125,31 +130,29 @@ theorem markClosed_nil_iff (l : List Sub) (t : Nat) : markClosed l t = [] ↔ l 
   | cons a b => cases t <;> simp [List.modify]
 
 theorem winv_new (key : Nat) : WInv { key := key } := by
-  refine ⟨by simp, by simp, by simp⟩
+  refine ⟨by simp, by simp⟩
 
 theorem winv_capture (w : MuxW) (h : WInv w) : WInv (capture w) := by
   unfold capture
   split
-  · exact ⟨h.base, by intro _ _; rfl, h.fresh⟩
+  · exact ⟨h.base, h.fresh⟩
   · exact h
 
-theorem winv_register (w : MuxW) (k : Kind) (h : WInv w) : WInv (register true w k) := by
-  obtain ⟨hb, hc, hf⟩ := h
+theorem winv_register (wake : Bool) (w : MuxW) (k : Kind) (h : WInv w) : WInv (register wake w k) := by
+  obtain ⟨hb, hf⟩ := h
   unfold register
   simp only [step, listen]
-  refine ⟨?_, ?_, ?_⟩
+  refine ⟨?_, ?_⟩
   · (repeat' split) <;> simpa using hb
-  · (repeat' split) <;> simp_all [setSlot_slot]
-    all_goals (intro hr; rename_i hx; rcases hx with hx | hx <;> simp [hr] at hx)
   · cases k <;> (repeat' split) <;> simp_all [St.slot, St.setSlot]
     all_goals (intro hr; rename_i hx; rcases hx with hx | hx <;> simp [hr] at hx)
 
 theorem winv_stepMux (w : MuxW) (l : Label) (h : WInv w) : WInv (stepMux w l) := by
-  obtain ⟨hb, hc, hf⟩ := h
+  obtain ⟨hb, hf⟩ := h
   cases l <;> simp only [stepMux, step]
   all_goals (repeat' split)
   all_goals
-    refine ⟨?_, ?_, ?_⟩ <;> simp_all [setSlot_slot, notify_fixed, markClosed_nil_iff]
+    refine ⟨?_, ?_⟩ <;> simp_all [setSlot_slot, notify_fixed, markClosed_nil_iff]
 
 /-- mainLoop's own next steps (capture, see socks closed, capture, see http closed, run the
     deferred function) on one mux -/
@@ -163,9 +166,9 @@ theorem allClosed_slot (w : MuxW) (hi : SlotValid w.st) (hall : allClosed w = tr
   have := hall.1 sb (List.mem_of_getElem? g)
   simp [subClosed, g, this]
 
-theorem releaseW_closes (w : MuxW) (hw : WInv w) (hi : SlotValid w.st) (hall : allClosed w = true) :
-    (releaseW w).baseOpen = false := by
-  obtain ⟨hb, hc, hf⟩ := hw
+theorem releaseW_closes (w : MuxW) (hw : WInv w) (hc : CaptureCurrent w) (hi : SlotValid w.st)
+    (hall : allClosed w = true) : (releaseW w).baseOpen = false := by
+  obtain ⟨hb, hf⟩ := hw
   have hne : w.st.subs ≠ [] := by
     intro h; simp [allClosed, h] at hall
   cases hp : w.st.phase with
@@ -394,5 +397,29 @@ theorem release_run (wake : Bool) (m : MSt) (id : Nat) (w : MuxW) (hw : m.muxes[
   have := mstep_mux_table wake _ id .exitA _ g4 hbo (by simpa [releaseW] using hc)
   rw [hk] at this
   simpa [mrun, releaseSched] using this
+
+/-- with the hypothetical wake-up on registration the hypothesis of the release theorem is an
+    invariant; in the code as it is (wake = false) it is not (`D16_late_registration_observation`) -/
+theorem captureCurrent_wake (sched : List MLabel) (id : Nat) (w : MuxW)
+    (h : (mrun true minit sched).muxes[id]? = some w) : CaptureCurrent w := by
+  refine mux_induction CaptureCurrent true ?_ ?_ ?_ ?_ sched id w h
+  · intro key; simp [CaptureCurrent]
+  · intro w k hc
+    unfold CaptureCurrent at hc ⊢
+    unfold register
+    simp only [step, listen]
+    (repeat' split) <;> simp_all [setSlot_slot]
+    all_goals (intro hr; rename_i hx; rcases hx with hx | hx <;> simp [hr] at hx)
+  · intro w hc
+    unfold CaptureCurrent at hc ⊢
+    unfold capture
+    split
+    · intro _ _; rfl
+    · exact hc
+  · intro w l hc
+    unfold CaptureCurrent at hc ⊢
+    cases l <;> simp only [stepMux, step]
+    all_goals (repeat' split)
+    all_goals simp_all [setSlot_slot, notify_fixed]
 
 end Hy.MuxMgr
